@@ -134,6 +134,31 @@ wrap (r1.value, r2.value)
         }
         println!("pushcross: both threads finished");
     }
+    if which == "primpanic" {
+        // run in a child process per program: before the fix the process aborts (SIGABRT)
+        let progs = [
+            ("wrapping_div 1 0", "let p = import! std.int.prim in p.wrapping_div 1 0"),
+            ("rem min -1", "let p = import! std.int.prim in p.rem p.min_value (0 #Int- 1)"),
+            ("is_digit 'a' 99", "let p = import! std.char.prim in p.is_digit 'a' 99"),
+            ("from_str_radix 99", "let p = import! std.int.prim in p.from_str_radix \"12\" 99"),
+            ("pow overflow", "let p = import! std.int.prim in p.pow 10 100"),
+            ("after a panic the vm still works", "1 #Int+ 2"),
+        ];
+        if let Some(i) = std::env::args().nth(2).and_then(|s| s.parse::<usize>().ok()) {
+            let r = vm.run_expr::<OpaqueValue<RootedThread, Hole>>("t", progs[i].1).map(|_| ()).map_err(|e| e.to_string().lines().next().unwrap_or("").to_string());
+            let again = vm.run_expr::<i32>("t2", "1 #Int+ 2").map(|x| x.0).map_err(|e| e.to_string());
+            println!("{:34} -> {:?}; then 1+2 on the same vm -> {:?}", progs[i].0, r, again);
+            return;
+        }
+        let exe = std::env::current_exe().unwrap();
+        let mut bad = false;
+        for i in 0..progs.len() {
+            let out = std::process::Command::new(&exe).arg("primpanic").arg(i.to_string()).stderr(std::process::Stdio::null()).output().unwrap();
+            print!("{}", String::from_utf8_lossy(&out.stdout));
+            if !out.status.success() { println!("{:34} -> PROCESS DIED: {:?}", progs[i].0, out.status); bad = true; }
+        }
+        if bad { std::process::exit(10); }
+    }
     if which == "lazy" {
         let src = r#"let { lazy } = import! std.lazy in lazy (\_ -> error "fail")"#;
         let (l, _) = vm.run_expr::<OpaqueValue<RootedThread, Hole>>("t", src).unwrap(); let l: L = unsafe { std::mem::transmute(l) };
